@@ -29,6 +29,10 @@ def _const(cls, e, cname):
         for s in cls.body:
             if isinstance(s, ast.Assign) and len(s.targets) == 1 and isinstance(s.targets[0], ast.Name) and s.targets[0].id == e.id:
                 return _const(cls, s.value, cname)
+        # a local name: resolved when it is assigned exactly once in the class, to something that is itself a constant
+        local = [s for s in ast.walk(cls) if isinstance(s, ast.Assign) and len(s.targets) == 1 and isinstance(s.targets[0], ast.Name) and s.targets[0].id == e.id]
+        if len(local) == 1 and not (isinstance(local[0].value, ast.Name) and local[0].value.id == e.id):
+            return _const(cls, local[0].value, cname)
     if isinstance(e, (ast.List, ast.Tuple)):
         return [_const(cls, x, cname) for x in e.elts]
     raise TranslateError("cannot resolve constant " + ast.unparse(e))
@@ -86,6 +90,7 @@ def read_rules(repo):
              "default": bool(kw["plugin_enabled_by_default"]), "fix": bool(kw.get("plugin_supports_fix", False)),
              "level": int(kw.get("plugin_fix_level", 1)), "version_class": ast.unparse(call.func),
              "cb": [any(isinstance(s, ast.FunctionDef) and s.name == c for s in cls.body) for c in CB], "items": [], "file": os.path.basename(p)}
+        parent = {c: a for a in ast.walk(cls) for c in ast.iter_child_nodes(a)}
         for n in ast.walk(cls):
             if isinstance(n, ast.Call) and isinstance(n.func, ast.Attribute) and ast.unparse(n.func.value) == "self.plugin_configuration" \
                     and n.func.attr.startswith("get_") and n.func.attr.endswith("_property"):
@@ -100,6 +105,13 @@ def read_rules(repo):
                     raise TranslateError(f"{p}: unsupported getter keywords {extra}")
                 item = {"name": _const(cls, n.args[0], cls.name).lower(), "ty": ty, "default": _const(cls, k["default_value"], cls.name) if "default_value" in k else None,
                         "valid": _validator(cls, cls.name, k["valid_value_fn"]) if "valid_value_fn" in k else ("none",)}
+                # is the item read on every path?  (the model reads - and validates - every item of an enabled rule)
+                a, cond = n, False
+                while a in parent and not isinstance(a, ast.FunctionDef):
+                    a = parent[a]
+                    if isinstance(a, (ast.If, ast.IfExp, ast.BoolOp, ast.While, ast.For, ast.Try, ast.With, ast.comprehension, ast.Lambda)):
+                        cond = True
+                item["conditional"] = cond
                 r["items"].append(item)
         rules.append(r)
     ids = [r["id"] for r in rules]
